@@ -89,6 +89,14 @@ var verifC15Src = []string{
 	 if @d = 1 then @r1 := g(); end if;
 	 @r2 := h();
 	 if @c = 1 then declare g function () as begin return 7; end; @r3 := g(); end if;`,
+	// 13: a temporary table declared in a block shadows an outer one of the same name and is gone afterwards
+	`var @inner := 0; var @outer := 0;
+	 declare tt view (c1); insert into tt values (1);
+	 if @c = 1 then
+	   declare tt view (c1); insert into tt values (5), (6);
+	   @inner := (select count(*) from tt);
+	 end if;
+	 @outer := (select count(*) from tt);`,
 }
 
 var verifC15Progs [][]parser.Statement
@@ -219,6 +227,9 @@ func VerifC15Programs() {
 			want = 1
 		}
 		verifAssert("RETURN from inside a loop", get("res") == want)
+	case 13:
+		verifAssert("the block sees its own temporary table", get("inner") == 2*c)
+		verifAssert("the outer temporary table is untouched and visible again", get("outer") == 1)
 	case 12:
 		verifAssert("a sibling block sees the outer function", get("r1") == d)
 		verifAssert("a later invocation sees the outer function", get("r2") == 11)
